@@ -336,6 +336,16 @@ def write_replay(v):
     with open(path, "w") as f:
         json.dump(body, f, indent=1, sort_keys=True)
         f.write("\n")
+    # a plain unit test that replays this single case without the explorer: pytest <file>
+    with open(os.path.join(d, f"{h}_test.py"), "w") as f:
+        f.write(
+            f'"""Replays the recorded {v["property"]} case {h} on the real code, without the explorer."""\n'
+            "import sys\n\n"
+            f"sys.path.insert(0, {ROOT!r})\n\n\n"
+            "def test_replay():\n"
+            "    from kverif.__main__ import main\n\n"
+            f"    assert main([{v['property']!r}, '--replay', {path!r}]) == 0, 'the recorded violation reproduces'\n"
+        )
     return path
 
 
